@@ -1364,18 +1364,28 @@ package connect
 //@   ensures streamType != 0 && (c.protocolClientParams.CompressionName == "" || c.protocolClientParams.CompressionName == "identity") ==> hdom(header, "Connect-Content-Encoding") == old(hdom(header, "Connect-Content-Encoding"))   // label: no-compression-no-encoding-header   // tags: C05, C08
 //@   ensures hdom(header, "Content-Type") && hraw(header, "Content-Type") == [callres("connectContentTypeFromCodecName", 1)]   // label: content-type-names-protocol-and-codec   // tags: C05
 
-//@ constfield protocolClientParams.CompressionPools, protocolClientParams.Codec, protocolClientParams.BufferPool, protocolClientParams.HTTPClient, protocolClientParams.Protobuf
+//@ constfield protocolClientParams.CompressionPools, protocolClientParams.Codec, protocolClientParams.BufferPool, protocolClientParams.HTTPClient, protocolClientParams.Protobuf, protocolClientParams.ReadMaxBytes, protocolClientParams.CompressMinBytes, protocolClientParams.CompressionName, protocolClientParams.URL
+//@ func (*duplexHTTPCall).SetValidateResponse(d, validate)
+//@   tags C09, C08, C01, C10
+//@   requires d != nil
+//@   assigns d.validateResponse
 //@ func (*connectClient).NewConn(c, ctx, spec, header) res
-//@   tags C10
+//@   tags C10, C09, C08, C01
 //@   requires c != nil && ctx != nil && header != nil && c.protocolClientParams.CompressionPools != nil
+//@   assert@call(wrapClientConnWithCodedErrors#1): typeis(arg0, "*connectUnaryClientConn") ==> (let u := cast(arg0, "*connectUnaryClientConn") in u.unmarshaler.readMaxBytes == c.protocolClientParams.ReadMaxBytes && u.unmarshaler.codec == c.protocolClientParams.Codec && u.unmarshaler.bufferPool == c.protocolClientParams.BufferPool && u.unmarshaler.reader == u.duplexCall && u.marshaler.writer == u.duplexCall && u.marshaler.codec == c.protocolClientParams.Codec && u.marshaler.compressMinBytes == c.protocolClientParams.CompressMinBytes && u.marshaler.compressionName == c.protocolClientParams.CompressionName && u.marshaler.compressionPool == callres("readOnlyCompressionPools.Get", 1) && u.compressionPools == c.protocolClientParams.CompressionPools)   // label: unary-conn-carries-the-client's-codec-limit-threshold-and-compression   // tags: C09, C08, C01
+//@   assert@call(wrapClientConnWithCodedErrors#1): typeis(arg0, "*connectStreamingClientConn") ==> (let t := cast(arg0, "*connectStreamingClientConn") in t.unmarshaler.envelopeReader.readMaxBytes == c.protocolClientParams.ReadMaxBytes && t.unmarshaler.envelopeReader.codec == c.protocolClientParams.Codec && t.unmarshaler.envelopeReader.reader == t.duplexCall && t.marshaler.envelopeWriter.writer == t.duplexCall && t.marshaler.envelopeWriter.codec == c.protocolClientParams.Codec && t.marshaler.envelopeWriter.compressMinBytes == c.protocolClientParams.CompressMinBytes && t.marshaler.envelopeWriter.compressionPool == callres("readOnlyCompressionPools.Get", 2) && t.compressionPools == c.protocolClientParams.CompressionPools)   // label: streaming-conn-carries-the-client's-codec-limit-threshold-and-compression   // tags: C09, C08, C01
+//@   assert@call(readOnlyCompressionPools.Get#1): arg1 == c.protocolClientParams.CompressionName
+//@   assert@call(readOnlyCompressionPools.Get#2): arg1 == c.protocolClientParams.CompressionName
 //@   assigns everything
 //@   assert@call(newDuplexHTTPCall#1): !callresb("context.Context.Deadline", 1, 1) ==> hdom(header, "Connect-Timeout-Ms") == old(hdom(header, "Connect-Timeout-Ms")) && hraw(header, "Connect-Timeout-Ms") == old(hraw(header, "Connect-Timeout-Ms"))   // label: no-deadline-no-timeout-header
 //@   assert@call(newDuplexHTTPCall#1): callresb("context.Context.Deadline", 1, 1) && callres("time.Until", 1) >= 1000000 && callres("time.Until", 1) / 1000000 < 10000000000 ==> hdom(header, "Connect-Timeout-Ms") && hraw(header, "Connect-Timeout-Ms") == [dec(callres("time.Until", 1) / 1000000)]   // label: timeout-is-the-remaining-time-in-whole-milliseconds
 //@   assert@call(newDuplexHTTPCall#1): callresb("context.Context.Deadline", 1, 1) && callres("time.Until", 1) / 1000000 >= 10000000000 ==> hdom(header, "Connect-Timeout-Ms") == old(hdom(header, "Connect-Timeout-Ms")) && hraw(header, "Connect-Timeout-Ms") == old(hraw(header, "Connect-Timeout-Ms"))   // label: too-large-a-timeout-is-omitted-not-truncated
 
 //@ func (*grpcClient).NewConn(g, ctx, spec, header) res
-//@   tags C10
+//@   tags C10, C09, C08, C01
 //@   requires g != nil && ctx != nil && header != nil && g.protocolClientParams.CompressionPools != nil
+//@   assert@call(wrapClientConnWithCodedErrors#1): typeis(arg0, "*grpcClientConn") && (let t := cast(arg0, "*grpcClientConn") in t.unmarshaler.envelopeReader.readMaxBytes == g.protocolClientParams.ReadMaxBytes && t.unmarshaler.envelopeReader.codec == g.protocolClientParams.Codec && t.unmarshaler.envelopeReader.reader == t.duplexCall && t.unmarshaler.web == g.web && t.marshaler.envelopeWriter.writer == t.duplexCall && t.marshaler.envelopeWriter.codec == g.protocolClientParams.Codec && t.marshaler.envelopeWriter.compressMinBytes == g.protocolClientParams.CompressMinBytes && t.marshaler.envelopeWriter.compressionPool == callres("readOnlyCompressionPools.Get", 1) && t.compressionPools == g.protocolClientParams.CompressionPools && t.protobuf == g.protocolClientParams.Protobuf)   // label: conn-carries-the-client's-codec-limit-threshold-and-compression   // tags: C09, C08, C01
+//@   assert@call(readOnlyCompressionPools.Get#1): arg1 == g.protocolClientParams.CompressionName
 //@   assigns everything
 //@   assert@call(newDuplexHTTPCall#1): !callresb("context.Context.Deadline", 1, 1) ==> hdom(header, "Grpc-Timeout") == old(hdom(header, "Grpc-Timeout")) && hraw(header, "Grpc-Timeout") == old(hraw(header, "Grpc-Timeout"))   // label: no-deadline-no-timeout-header
 //@   assert@call(newDuplexHTTPCall#1): callresb("context.Context.Deadline", 1, 1) && callres("time.Until", 1) > 0 ==> hdom(header, "Grpc-Timeout") && hraw(header, "Grpc-Timeout") == [callres("grpcEncodeTimeout", 1, 0)] && gramT(callres("grpcEncodeTimeout", 1, 0)) && durT(callres("grpcEncodeTimeout", 1, 0)) <= callres("time.Until", 1)   // label: timeout-is-the-encoded-remaining-time
@@ -2059,3 +2069,18 @@ package connect
 //@ lemma grpc_code_and_message_survive_the_headers(c int, m seq, e seq): 0 <= c && c <= 4294967295 && isEnc(e, m) && (forall b int :: {m[b]} 0 <= b && b < |m| ==> 0 <= m[b] && m[b] <= 255) ==> isNum10(dec(c)) && val10(dec(c)) == c && pdec(e, 0) == m
 //@   tags C02
 //@   use percent_roundtrip(e, m)
+
+// duplex_http_call.go: constructing the call never panics; if the request
+// cannot be constructed (http.NewRequestWithContext fails: a URL that
+// url.ParseRequestURI accepted in NewClient but url.Parse rejects, e.g. an
+// invalid escape in the fragment) the call object carries a coded
+// `unavailable` error and still has a request for the header accessors.
+//@ trusted func http.NewRequestWithContext(ctx, method, url, body) (res, err)
+//@   assigns nothing
+//@   ensures (err == nil) == (res != nil) && (res != nil ==> fresh(res))
+//@   doc: "NewRequestWithContext returns a new Request given a method, URL, and optional body; on error the request is nil."
+//@ func newDuplexHTTPCall(ctx, httpClient, url, spec, header) res
+//@   tags C04, C06, C09, C08, C01, C10
+//@   assigns everything
+//@   ensures res != nil && res.request != nil   // label: a-call-object-with-a-request-is-always-returned
+//@   ensures callres("http.NewRequestWithContext", 1, 1) != nil ==> res.err != nil && coded(res.err) && codeOf(res.err) == 14   // label: a-request-that-cannot-be-constructed-is-a-coded-unavailable-error
